@@ -93,3 +93,7 @@ Proof.
   assert (R0 : reach nv_graph3 0) by (apply reach_first; [vm_compute; tauto | exact O0]).
   split; [exact R0|]. split; [|reflexivity]. apply (reach_next nv_graph3 0 1 R0); [vm_compute; tauto | exact O1].
 Qed.
+
+(* the hypotheses of C02_no_path_errors are met by the exported two-worker graph and by the single-worker one *)
+Example nv_pwf : pwf_b nv_graph = true /\ pwf_b nv_graph3 = true.
+Proof. vm_compute. split; reflexivity. Qed.
